@@ -420,10 +420,7 @@ def check_subcircuit(case):
     res = refsem.from_circuit(c)
     if len(res['inputs']) != n_in or len(res['outputs']) != n_out:
         raise Violation('replace_interface', f'{n_in}/{n_out} inputs/outputs became {len(res["inputs"])}/{len(res["outputs"])}')
-    # input order: positions keep their (possibly renamed) gates
-    exp_inputs = [inputs_mapping.get(x, x) for x in nl['inputs']]
-    if res['inputs'] != exp_inputs:
-        raise Violation('replace_input_order', f'inputs {res["inputs"]} expected {exp_inputs}')
+    # (input / output order is checked positionally by the truth-table comparison below)
     pr = wellformed.problems(c)
     if pr:
         raise Violation('wellformed', '; '.join(pr[:3]))
